@@ -304,3 +304,409 @@ def h_close(cfg: int, prestate: int, lc: int, pc: int, ops: List[int]):
         else:
             assert not st.closed() and rec.closes == [], "connection closed without any reason"
         assert not env.v.exc_contexts and not rec.logged, "exception escaped: %r %r" % (env.v.exc_contexts, rec.logged)
+
+
+# ==============================================================================================
+# Client side: the real WebSocketClientConnection in both application styles.
+import base64 as _b64
+import hashlib as _hl
+import warnings as _warnings
+
+import tornado.websocket as W
+from tornado import httputil as _httputil
+from tornado.queues import Queue as _Queue
+from vp.env import outcome
+
+C_KEY = b"dGhlIHNhbXBsZSBub25jZQ=="
+C_ACCEPT = _b64.b64encode(_hl.sha1(C_KEY + b"258EAFA5-E914-47DA-95CA-C5AB0DC85B11").digest()).decode("ascii")
+# client op table: (kind, variant)   0 local close | 1 peer close frame | 2 peer EOF | 3 incoming message |
+#                                    4 application calls read_message() | 5 write_message | 6 clock +5 s
+COPS = [(0, 0), (0, 1), (0, 2), (1, 0), (1, 1), (1, 2), (2, 0), (3, 0), (4, 0), (5, 0), (6, 0)]
+# pre-states (concrete prefixes through the same step function):
+#   fresh | two messages arrived (read style: the 2nd one is IN FLIGHT, the receive loop waits for the reader) |
+#   two messages + a peer close frame with code (read style: the close frame is queued behind the in-flight message)
+CPREFIX = [[], [7, 7], [7, 7, 4]]
+PEND = ("pending",)
+
+
+def _mask_zero(mask, data):
+    """x ^ 0 == x: with os.urandom -> 00 00 00 00 the outgoing mask is the identity, so symbolic close codes are
+    not pushed through CrossHair's bitwise-xor model (masking itself is C14/C18)."""
+    assert mask == b"\x00\x00\x00\x00"
+    return data
+
+
+class _TcpStub:
+    def __init__(self):
+        self.closed = 0
+
+    def close(self):
+        self.closed += 1
+
+
+class _ConnStub:
+    def __init__(self, stream):
+        self.stream = stream
+
+    def detach(self):
+        return self.stream
+
+
+def make_client(env, stream, on_message_callback):
+    """WebSocketClientConnection as websocket_connect leaves it after a successful handshake: the object is
+    allocated without running __init__ (which would start DNS/TCP), given the fields __init__ sets, and the REAL
+    headers_received() is driven with a concrete, correct 101 response (-> real _process_server_headers,
+    get_websocket_protocol, detach, _receive_frame_loop start, connect_future)."""
+    conn = W.WebSocketClientConnection.__new__(W.WebSocketClientConnection)
+    conn.connect_future = Future()
+    conn.read_queue = _Queue(1)
+    conn.key = C_KEY
+    conn._on_message_callback = on_message_callback
+    conn.close_code = None
+    conn.close_reason = None
+    conn.params = W._WebSocketParams(ping_interval=None, ping_timeout=None, compression_options=None)
+    conn.tcp_client = _TcpStub()
+    conn.io_loop = env.loop
+    conn.final_callback = lambda response: None
+    conn._timeout = None
+    conn.stream = stream
+    conn.connection = _ConnStub(stream)
+    hh = _httputil.HTTPHeaders()
+    hh.add("Upgrade", "websocket")
+    hh.add("Connection", "Upgrade")
+    hh.add("Sec-WebSocket-Accept", C_ACCEPT)
+    t = env.spawn(conn.headers_received(_httputil.ResponseStartLine("HTTP/1.1", 101, "Switching Protocols"), hh))
+    env.run_ready()
+    assert t.done() and t.exception() is None and conn.connect_future.done() and conn.connect_future.result() is conn
+    return conn
+
+
+class CModel:
+    """Reference for the client: frames are processed strictly in arrival order; in read_message style the
+    connection hands over at most one unread message (Queue(1)) and waits for the reader with the next one."""
+
+    def __init__(self, style):
+        self.style = style
+        self.queue, self.putters, self.getters = [], [], []
+        self.reads, self.cb, self.cb_codes = [], [], []
+        self.blocked = False
+        self.backlog = []
+        self.loop_alive = True
+        self.peer = None          # (code, reason) of the first peer close frame that was received
+        self.sent = None          # ("local", variant) | ("echo", code)
+        self.st_closed = False
+        self.aborted = False
+        self.eof = False
+        self.waiting = None
+        self.notified = 0
+        self.local_closed = False
+        self.now = 0
+        self.terminal = False
+
+    def deliver(self, item):
+        if self.style == 0:
+            self.cb.append(item)
+            self.cb_codes.append(self.peer)
+            return False
+        if self.getters:
+            self.reads[self.getters.pop(0)] = item
+            return False
+        if len(self.queue) < 1:
+            self.queue.append(item)
+            return False
+        self.putters.append(item)
+        return True
+
+    def notify(self):
+        self.notified += 1
+        self.loop_alive = False
+        self.backlog = []
+        self.deliver(None)
+
+    def process(self):
+        while self.loop_alive and not self.blocked:
+            if self.aborted:
+                self.notify()
+                break
+            if not self.backlog:
+                if self.eof:
+                    self.notify()
+                break
+            ev = self.backlog.pop(0)
+            if ev[0] == "msg":
+                self.blocked = self.deliver("m")
+            else:
+                if self.peer is None:
+                    self.peer = (ev[1], ev[2])
+                if self.sent is None and not self.st_closed:
+                    self.sent = ("echo", ev[1])
+                self.st_closed = True
+                self.waiting = None
+                self.notify()
+
+    def read(self):
+        idx = len(self.reads)
+        self.reads.append(PEND)
+        if self.queue:
+            self.reads[idx] = self.queue.pop(0)
+            if self.putters:
+                self.queue.append(self.putters.pop(0))
+                if self.blocked:
+                    self.blocked = False
+                    self.process()
+        else:
+            self.getters.append(idx)
+
+
+def pre_client(style: int, prestate: int, lc: int, pc: int, ops: List[int]) -> bool:
+    if not (1000 <= lc <= 4999 and 1000 <= pc <= 4999):
+        return False
+    if not (0 <= style <= 1 and 0 <= prestate < len(CPREFIX) and len(ops) <= P.N):
+        return False
+    if not in_shard(style + 2 * prestate + 6 * (ops[0] % 2 if len(ops) > 0 else 0)):
+        return False
+    for o in ops:
+        if not 0 <= o < len(COPS):
+            return False
+        if style == 0 and o == 8:
+            return False          # read_message() is not used in callback style
+    r = P.reach                   # reach twins only: steer the witness search (a subset of the bounds above)
+    if r == "cb_none_with_peer_code":
+        return style == 0 and prestate == 0 and len(ops) >= 1 and ops[0] == 5
+    if r == "read_none_once":
+        return style == 1 and prestate == 0 and len(ops) >= 1 and ops[0] == 6
+    if r == "client_echo_peer_code":
+        return prestate == 0 and len(ops) >= 1 and ops[0] == 4
+    if r == "client_crossing_closes":
+        return style == 1 and prestate == 2 and len(ops) >= 1 and ops[0] == 1
+    if r == "client_write_after_close_raises":
+        return prestate == 0 and len(ops) == 2 and ops[1] == 9
+    if r == "client_closing_timeout_abort":
+        return prestate == 0 and len(ops) == 2 and ops[1] == 10
+    if r == "peer_close_behind_inflight":
+        return style == 1 and prestate == 2
+    return True
+
+
+@harness(
+    pre=pre_client,
+    quick=dict(N=2, timeout=120, reach_timeout=60),
+    thorough=dict(N=3, timeout=1400, reach_timeout=120),
+    nshards=dict(quick=12, thorough=12),
+    reach=["cb_none_with_peer_code", "read_none_once", "client_echo_peer_code", "client_crossing_closes",
+           "client_write_after_close_raises", "client_closing_timeout_abort", "peer_close_behind_inflight"],
+    units=["websocket.WebSocketClientConnection.headers_received", "websocket.WebSocketClientConnection.close",
+           "websocket.WebSocketClientConnection.on_connection_close",
+           "websocket.WebSocketClientConnection.on_ws_connection_close",
+           "websocket.WebSocketClientConnection.write_message", "websocket.WebSocketClientConnection.read_message",
+           "websocket.WebSocketClientConnection._on_message", "websocket.WebSocketProtocol13._process_server_headers",
+           "websocket.WebSocketProtocol13.close", "websocket.WebSocketProtocol._abort",
+           "websocket.WebSocketProtocol13._handle_message", "websocket.WebSocketProtocol13._receive_frame_loop",
+           "queues.Queue.put", "queues.Queue.get"],
+    stubs=["VLoop/FakeAio virtual loop and clock; FakeStream",
+           "WebSocketClientConnection allocated with __new__ + the fields its __init__ sets (no DNS/TCP), tcp_client and "
+           "the HTTP connection (detach) are stand-ins; the real headers_received() processes a concrete correct 101 "
+           "response (real SHA-1 accept check)",
+           "tornado.websocket.struct -> pure-Python shim; os.urandom -> zero mask and _websocket_mask -> identity for "
+           "the zero mask (close codes stay symbolic; masking is C14/C18)",
+           "style 0 = on_message_callback, style 1 = read_message(); close codes of both sides symbolic 1000..4999, "
+           "reasons fixed ASCII; schedule = concrete prefix (fresh | two messages arrived, the second in flight in "
+           "read style | the same plus a peer close frame queued behind it) + N symbolic steps from {local close x3 "
+           "forms, peer close frame x3 forms, peer EOF, message, read_message(), write_message, clock +5 s}, then a "
+           "drain (application reads until nothing more comes, clock +100 s, reads again)",
+           "reference: frames are processed in arrival order and, in read style, at most one unread message is held "
+           "(Queue(1)) while the next waits for the reader"],
+    outside=["ping timeouts on the client (server side: h_close)", "close reasons that are not valid UTF-8",
+             "the TCP connect / HTTP request phase (C19-C22)"],
+)
+def h_client_close(style: int, prestate: int, lc: int, pc: int, ops: List[int]):
+    _warnings.simplefilter("ignore")
+    R.apply_shims(urandom=b"\x00\x00\x00\x00")
+    W._websocket_mask = _mask_zero
+    steps = list(CPREFIX[R.pick(prestate, len(CPREFIX))])
+    for o in ops:
+        steps.append(R.pick(o, len(COPS)))
+    cstyle = R.pick(style, 2)
+    with install() as env:
+        st = FakeStream(env.loop)
+        M = CModel(cstyle)
+        cb_log = []          # (message, close_code, close_reason at that moment)
+        holder = []
+
+        def on_msg(m):
+            cb_log.append((m, holder[0].close_code, holder[0].close_reason))
+
+        conn = make_client(env, st, on_msg if cstyle == 0 else None)
+        holder.append(conn)
+        reads = []
+
+        def frames():
+            return R.parse_frames(st.wire())
+
+        def do_read():
+            reads.append(conn.read_message())
+            M.read()
+            env.run_ready()
+
+        def check():
+            fr = frames()
+            closes = [i for i, f in enumerate(fr) if f[2] == 8]
+            assert len(closes) <= 1, "client sent more than one close frame: %r" % (fr,)
+            if closes:
+                for f in fr[closes[0] + 1:]:
+                    assert f[2] not in (0, 1, 2), "client sent a data frame after its close frame: %r" % (fr,)
+                assert M.sent is not None, "client sent a close frame nobody asked for: %r" % (fr,)
+                pl = fr[closes[0]][4]
+                if M.sent[0] == "local":
+                    form = M.sent[1]
+                    if form == 0:
+                        assert pl == b"", "close() without arguments must send an empty close frame"
+                    else:
+                        assert len(pl) >= 2 and pl[0] * 256 + pl[1] == lc, "close(code) must send that code"
+                        assert pl[2:] == (b"bye" if form == 2 else b""), "close reason not sent"
+                elif M.sent[1] is not None:
+                    reached("client_echo_peer_code")
+                    assert len(pl) >= 2 and pl[0] * 256 + pl[1] == M.sent[1], \
+                        "close frame must echo the peer's code %r, sent %r" % (M.sent[1], pl)
+            else:
+                assert M.sent is None, "close frame missing (expected %r)" % (M.sent,)
+            assert st.closed() == M.st_closed, "TCP closed=%r, expected %r" % (st.closed(), M.st_closed)
+            assert not env.v.exc_contexts, "exception escaped: %r" % (env.v.exc_contexts,)
+            if cstyle == 0:
+                nones = [c for c in cb_log if c[0] is None]
+                assert len(nones) <= 1, "close notification (callback with None) fired %d times" % len(nones)
+                assert [c[0] for c in cb_log] == M.cb, "callback saw %r, expected %r" % ([c[0] for c in cb_log], M.cb)
+                if nones:
+                    assert cb_log[-1][0] is None, "message delivered after the close notification"
+                    if M.peer is not None:
+                        reached("cb_none_with_peer_code")
+                        assert (nones[0][1], nones[0][2]) == M.peer, \
+                            "at the close notification close_code/close_reason were %r, peer sent %r" % (
+                                (nones[0][1], nones[0][2]), M.peer)
+            else:
+                got = []
+                for f in reads:
+                    oc = outcome(f)
+                    got.append(PEND if oc[0] == "pending" else oc[1] if oc[0] == "result" else oc)
+                assert got == M.reads, "read_message results %r, expected %r" % (got, M.reads)
+                assert len([x for x in got if x is None]) <= 1, "read_message returned None more than once"
+            assert conn.tcp_client.closed <= 1
+
+        for o in steps:
+            kind, variant = COPS[o]
+            if kind == 0:
+                if not M.local_closed:
+                    if M.backlog and not M.st_closed:
+                        for ev in M.backlog:
+                            if ev[0] == "close":
+                                reached("client_crossing_closes")
+                    M.local_closed = True
+                    M.terminal = True
+                    if not M.st_closed:
+                        if M.sent is None:
+                            M.sent = ("local", variant)
+                        if M.waiting is None:
+                            M.waiting = M.now + 5
+                if variant == 0:
+                    conn.close()
+                elif variant == 1:
+                    conn.close(lc)
+                else:
+                    conn.close(lc, "bye")
+            elif kind == 1:
+                if M.st_closed or M.eof:
+                    continue
+                code = None if variant == 0 else pc
+                reason = "x!" if variant == 2 else None
+                pl = b"" if variant == 0 else bytes([pc // 256, pc % 256]) + (b"x!" if variant == 2 else b"")
+                M.terminal = True
+                M.backlog.append(("close", code, reason))
+                if M.blocked:
+                    reached("peer_close_behind_inflight")
+                M.process()
+                st.feed(R.frame(True, 0, 8, pl))
+            elif kind == 2:
+                if M.st_closed or M.eof:
+                    continue
+                M.eof = True
+                M.st_closed = True
+                M.terminal = True
+                M.process()
+                st.peer_close()
+            elif kind == 3:
+                if M.st_closed or M.eof:
+                    continue
+                M.backlog.append(("msg",))
+                M.process()
+                st.feed(R.frame(True, 0, 1, b"m"))
+            elif kind == 4:
+                do_read()
+            elif kind == 5:
+                before = len(frames())
+                must_raise = M.local_closed or M.sent is not None or M.st_closed
+                raised = None
+                try:
+                    conn.write_message("w")
+                except WebSocketClosedError as e:
+                    raised = e
+                env.run_ready()
+                if must_raise:
+                    reached("client_write_after_close_raises")
+                    assert raised is not None, "write_message after closing did not raise WebSocketClosedError"
+                    assert len(frames()) == before, "write_message after closing put a frame on the wire"
+                else:
+                    fr = frames()
+                    assert raised is None and len(fr) == before + 1 and fr[-1][2] == 1 and fr[-1][4] == b"w" \
+                        and fr[-1][3], "write_message on an open connection must send one masked text frame"
+            else:
+                env.advance(5)
+                M.now += 5
+                if M.waiting is not None and M.now >= M.waiting and not M.st_closed:
+                    reached("client_closing_timeout_abort")
+                    M.st_closed = True
+                    M.aborted = True
+                    M.waiting = None
+                    M.process()
+            env.run_ready()
+            check()
+
+        # ---- drain: the application reads until nothing more comes; the closing timeout elapses; reads again
+        def drain_reads():
+            if cstyle == 1:
+                for _ in range(5):
+                    if M.reads and M.reads[-1] == PEND:
+                        break
+                    do_read()
+                    check()
+
+        drain_reads()
+        env.advance(100)
+        M.now += 100
+        if M.waiting is not None and not M.st_closed:
+            M.st_closed = True
+            M.aborted = True
+            M.waiting = None
+            M.process()
+        env.run_ready()
+        check()
+        drain_reads()
+        # ---- the statement, on the real observations only
+        if M.terminal:
+            assert st.closed(), "client connection never torn down after close / disconnect"
+            if cstyle == 0:
+                assert len([c for c in cb_log if c[0] is None]) == 1 and cb_log[-1][0] is None, \
+                    "close notification must fire exactly once, last: %r" % (cb_log,)
+            else:
+                res = [outcome(f) for f in reads]
+                nn = [r for r in res if r == ("result", None)]
+                assert len(nn) == 1, "read_message must return None exactly once, got %r" % (res,)
+                reached("read_none_once")
+                assert res[-1] == ("pending",) and res[-2] == ("result", None), \
+                    "after the close notification nothing more may be delivered: %r" % (res,)
+            if M.peer is not None:
+                assert (conn.close_code, conn.close_reason) == M.peer, \
+                    "close_code/close_reason %r, peer sent %r" % ((conn.close_code, conn.close_reason), M.peer)
+            assert conn.tcp_client.closed == 1
+        else:
+            assert not st.closed() and not [c for c in cb_log if c[0] is None], "closed without any reason"
+        assert not env.v.exc_contexts, "exception escaped: %r" % (env.v.exc_contexts,)
